@@ -1,2 +1,272 @@
+//! C17: apply is a pure, stateless, thread-safe function of (rule, data).
+//! H1 history monitor, H2 input immutability, H3 heap conservation and allocation determinism,
+//! H4 concurrent calls on shared inputs (also the workload of the ThreadSanitizer and Miri lanes),
+//! H5 effects (log lines = prediction; log returns its operand).
+
+use crate::alloc;
+use crate::corpus::*;
 use crate::ctx::Ctx;
-pub fn c17(_c: &mut Ctx) {}
+use crate::observe::{self, Obs, Outcome};
+use crate::refsem::{self};
+use crate::rng::Rng;
+use serde_json::{json, Value};
+use std::collections::BTreeMap;
+use std::sync::atomic::{AtomicU64, Ordering};
+use std::sync::{Arc, Barrier, Mutex};
+
+fn outcome_key(o: &Outcome) -> String {
+    match o {
+        Outcome::Ok(v) => format!("ok:{}", v),
+        Outcome::Err(e) => format!("err:{}", e),
+        Outcome::Panic(p) => format!("panic:{}", p),
+    }
+}
+
+/// Pool of (rule, data) pairs: same rules on different data, different rules on the same
+/// data, erroring and logging calls.
+fn build_pool(ctx: &mut Ctx, n_rules: usize, n_data: usize) -> Vec<(Value, Value)> {
+    let mut datas: Vec<Value> = vec![Value::Null, json!({"a": 1, "b": {"c": [1, 2, 3]}, "s": "héllo"}), json!([3, 1, 2]), json!({"a": 2, "b": {"c": []}, "s": ""}), json!("str")];
+    while datas.len() < n_data {
+        datas.push(rand_data(&mut ctx.rng, 3, 5, &mut 0));
+    }
+    let mut rules: Vec<Value> = vec![
+        json!({"var": "a"}), json!({"+": [{"var": "a"}, 1]}), json!({"map": [{"var": "b.c"}, {"*": [{"var": ""}, 2]}]}), json!({"reduce": [{"var": "b.c"}, {"+": [{"var": "current"}, {"var": "accumulator"}]}, 0]}),
+        json!({"log": {"var": "a"}}), json!({"log": "static"}), json!({"if": [{"var": "a"}, {"log": "then"}, {"log": "else"}]}), json!({"cat": [{"var": "s"}, "-", {"var": "a"}]}),
+        json!({"/": [1]}), json!({"+": ["x"]}), json!({"substr": [{"var": "s"}, -2]}), json!({"missing": ["a", "z", "b.c"]}), json!({"all": [{"var": "b.c"}, {">": [{"var": ""}, 0]}]}),
+        json!({"merge": [{"var": "b.c"}, {"var": ""}]}), json!({"==": [{"var": "a"}, "1"]}), json!({"in": [{"var": "a"}, {"var": "b.c"}]}), json!([{"var": "a"}]), json!({"filter": [{"var": ""}, {"%": [{"var": ""}, 2]}]}),
+    ];
+    let mut g = RuleGen::new();
+    g.probes = 8;
+    g.poison = 4;
+    while rules.len() < n_rules {
+        let d = datas[ctx.rng.below(datas.len())].clone();
+        rules.push(g.rule(&mut ctx.rng, &d, 3, 3));
+    }
+    let mut pool = Vec::new();
+    for r in rules.iter() {
+        for d in datas.iter() {
+            pool.push((r.clone(), d.clone()));
+        }
+    }
+    pool
+}
+
+struct Isolated {
+    key: String,
+    logs: Vec<String>,
+    allocs: u64,
+}
+
+pub fn c17(ctx: &mut Ctx) {
+    let small = ctx.scale < 0.2; // Miri / sanitizer lanes
+    let (nr, nd) = if small { (10, 3) } else if ctx.thorough() { (400, 12) } else { (120, 8) };
+    let pool = build_pool(ctx, nr, nd);
+    // ---- isolated results: first call of each pair in this process -----------------------
+    // (a sample of them is additionally computed in a fresh process by the orchestrator)
+    let warm = observe::observe(&json!({"log": "warm-up"}), &Value::Null);
+    let _ = warm;
+    let mut iso: Vec<Isolated> = Vec::with_capacity(pool.len());
+    for (r, d) in pool.iter() {
+        let obs = ctx.observe(r, d);
+        // H5: the log trace and value agree with the model's prediction
+        let (mo, tr) = refsem::model(r, d);
+        ctx.judge("c17.effects", r, d, &obs, &mo, &tr);
+        let allocs = measure_allocs(r, d).0;
+        iso.push(Isolated { key: outcome_key(&obs.out), logs: obs.logs, allocs });
+    }
+    // log returns its operand unchanged
+    for v in v_all() {
+        let data = json!({ "v": v });
+        let obs = ctx.observe(&json!({"log": [{"var": "v"}]}), &data);
+        ctx.mon("c17.log-identity").observed += 1;
+        ctx.mon("c17.log-identity").judged += 1;
+        let ok = matches!(&obs.out, Outcome::Ok(r) if r.to_string() == v.to_string()) && (!observe::capture_active() || obs.logs == vec![v.to_string()]);
+        if !ok {
+            ctx.violation("c17.log-identity", "log-identity", &json!({"log": [{"var": "v"}]}), &data, json!({"ok": v, "one line": v.to_string()}), json!({"out": obs.out.brief(), "lines": obs.logs}), "log did not return its operand unchanged / did not print exactly one line");
+        }
+    }
+
+    // ---- H1 + H2 + H3: randomised histories ----------------------------------------------
+    let n = ctx.budget(30_000, 4_000_000);
+    let mut prev_rule: Option<usize> = None;
+    let per_data = nd.max(1);
+    for step in 0..n {
+        // bias: repeat the previous rule with other data / another rule on the same data
+        let i = match (prev_rule, ctx.rng.below(4)) {
+            (Some(p), 0) => (p / per_data) * per_data + ctx.rng.below(per_data),
+            (Some(p), 1) => (ctx.rng.below(pool.len() / per_data)) * per_data + p % per_data,
+            (Some(p), 2) if step % 7 == 0 => p,
+            _ => ctx.rng.below(pool.len()),
+        }
+        .min(pool.len() - 1);
+        let (r, d) = &pool[i];
+        let check_immut = step % 4 == 0;
+        let before = if check_immut { Some((r.to_string(), d.to_string())) } else { None };
+        let obs = ctx.observe(r, d);
+        ctx.mon("c17.history").observed += 1;
+        ctx.mon("c17.history").judged += 1;
+        if outcome_key(&obs.out) != iso[i].key || (observe::capture_active() && obs.logs != iso[i].logs) {
+            ctx.violation_x("c17.history", &format!("history-dependent:{}", crate::ctx::top_op(r)), r, d, json!({"isolated": iso[i].key, "logs": iso[i].logs}), json!({"in_history": outcome_key(&obs.out), "logs": obs.logs}), "the result of a call depends on the calls made before it", json!({"step": step, "previous_pool_index": prev_rule}));
+        }
+        if let Some((rt, dt)) = before {
+            ctx.mon("c17.immutability").observed += 1;
+            ctx.mon("c17.immutability").judged += 1;
+            if r.to_string() != rt || d.to_string() != dt {
+                ctx.violation("c17.immutability", "input-mutated", r, d, json!({"rule": rt, "data": dt}), json!({"rule": r, "data": d}), "apply modified one of its inputs");
+            }
+        }
+        if alloc::enabled() && step % 3 == 0 && !matches!(obs.out, Outcome::Panic(_)) {
+            let (allocs, live_delta) = measure_allocs(r, d);
+            ctx.mon("c17.heap-conservation").observed += 1;
+            ctx.mon("c17.heap-conservation").judged += 1;
+            if live_delta != 0 {
+                ctx.violation_x("c17.heap-conservation", &format!("retained-heap:{}", crate::ctx::top_op(r)), r, d, json!({"net_live_bytes": 0}), json!({ "net_live_bytes": live_delta }), "heap memory stayed allocated after the call returned and its result was dropped (state kept between calls)", json!({"step": step}));
+            }
+            ctx.mon("c17.alloc-determinism").observed += 1;
+            ctx.mon("c17.alloc-determinism").judged += 1;
+            if allocs != iso[i].allocs {
+                ctx.violation_x("c17.alloc-determinism", &format!("alloc-count-varies:{}", crate::ctx::top_op(r)), r, d, json!({"allocations_in_isolation": iso[i].allocs}), json!({ "allocations_now": allocs }), "the number of allocations of the same call differs from its first occurrence (hidden state: cache / memo / warm-up)", json!({"step": step}));
+            }
+        }
+        if prev_rule.map(|p| p / per_data == i / per_data && p != i).unwrap_or(false) {
+            ctx.mark_nontrivial_key(&format!("h:{}:{}", i, prev_rule.unwrap()));
+            ctx.cell("history:same-rule-other-data");
+        } else if prev_rule.map(|p| p % per_data == i % per_data && p != i).unwrap_or(false) {
+            ctx.mark_nontrivial_key(&format!("h:{}:{}", i, prev_rule.unwrap()));
+            ctx.cell("history:other-rule-same-data");
+        } else if prev_rule == Some(i) {
+            ctx.cell("history:exact-repeat");
+        }
+        prev_rule = Some(i);
+    }
+
+    // ---- H4: concurrent calls on shared inputs ---------------------------------------------
+    let shared: Arc<Vec<(Value, Value)>> = Arc::new(pool);
+    let iso_keys: Arc<Vec<String>> = Arc::new(iso.iter().map(|x| x.key.clone()).collect());
+    let iso_logs: Vec<Vec<String>> = iso.iter().map(|x| x.logs.clone()).collect();
+    let rounds = ctx.budget(6, 200).max(1);
+    let calls_per_thread = if small { 6 } else { ctx.budget(300, 3000) as usize };
+    let mut signatures: BTreeMap<u64, u64> = BTreeMap::new();
+    let mut total_switches = 0u64;
+    for round in 0..rounds {
+        let threads = if small { 3 } else { [2usize, 4, 16][(round % 3) as usize] };
+        if observe::capture_active() {
+            let _ = observe::capture_take();
+        }
+        let barrier = Arc::new(Barrier::new(threads));
+        let seq = Arc::new(AtomicU64::new(0));
+        let order: Arc<Mutex<Vec<(u64, u8)>>> = Arc::new(Mutex::new(Vec::new()));
+        let mismatches: Arc<Mutex<Vec<(usize, String, usize)>>> = Arc::new(Mutex::new(Vec::new()));
+        let called: Arc<Mutex<Vec<usize>>> = Arc::new(Mutex::new(Vec::new()));
+        let mut hs = Vec::new();
+        for t in 0..threads {
+            let (shared, iso_keys, barrier, seq, order, mismatches, called) = (shared.clone(), iso_keys.clone(), barrier.clone(), seq.clone(), order.clone(), mismatches.clone(), called.clone());
+            let mut rng = Rng::from_parts(ctx.seed ^ round.wrapping_mul(7919), "C17-thread", (ctx.shard << 8) | t as u64);
+            hs.push(std::thread::spawn(move || {
+                observe::install_panic_hook();
+                let mut mine: Vec<(u64, u8)> = Vec::new();
+                let mut idxs: Vec<usize> = Vec::new();
+                barrier.wait();
+                for _ in 0..calls_per_thread {
+                    // few "hot" pairs so that threads collide on the same shared values
+                    let i = if rng.chance(1, 2) { rng.below(8.min(shared.len())) } else { rng.below(shared.len()) };
+                    let (r, d) = &shared[i];
+                    let out = observe::call(r, d);
+                    let s = seq.fetch_add(1, Ordering::SeqCst);
+                    mine.push((s, t as u8));
+                    idxs.push(i);
+                    if outcome_key(&out) != iso_keys[i] {
+                        mismatches.lock().unwrap().push((i, outcome_key(&out), t));
+                    }
+                    match rng.below(8) {
+                        0 => std::thread::yield_now(),
+                        1 => {
+                            for _ in 0..rng.below(200) {
+                                std::hint::spin_loop();
+                            }
+                        }
+                        _ => {}
+                    }
+                }
+                order.lock().unwrap().extend(mine);
+                called.lock().unwrap().extend(idxs);
+            }));
+        }
+        for h in hs {
+            let _ = h.join();
+        }
+        ctx.evaluations += (threads * calls_per_thread) as u64;
+        ctx.mon("c17.concurrent").observed += (threads * calls_per_thread) as u64;
+        ctx.mon("c17.concurrent").judged += (threads * calls_per_thread) as u64;
+        for (i, got, t) in mismatches.lock().unwrap().iter() {
+            let (r, d) = &shared[*i];
+            ctx.violation_x("c17.concurrent", &format!("concurrent-result-differs:{}", crate::ctx::top_op(r)), r, d, json!({"isolated": iso_keys[*i]}), json!({ "concurrent": got }), "a concurrent call on shared inputs returned a different result than in isolation", json!({"thread": t, "threads": threads, "round": round}));
+        }
+        // the multiset of lines printed by all threads = the sum of the isolated traces of the calls made
+        if observe::capture_active() {
+            let lines = observe::capture_take();
+            let mut want: BTreeMap<String, i64> = BTreeMap::new();
+            for i in called.lock().unwrap().iter() {
+                for l in iso_logs[*i].iter() {
+                    *want.entry(l.clone()).or_insert(0) += 1;
+                }
+            }
+            let mut got: BTreeMap<String, i64> = BTreeMap::new();
+            for l in lines.iter() {
+                *got.entry(l.clone()).or_insert(0) += 1;
+            }
+            ctx.mon("c17.concurrent-effects").observed += 1;
+            ctx.mon("c17.concurrent-effects").judged += 1;
+            ctx.log_lines_matched += lines.len() as u64;
+            if want != got {
+                let diff: Vec<String> = want.iter().filter(|(k, n)| got.get(*k) != Some(n)).map(|(k, n)| format!("{} want {} got {:?}", k, n, got.get(k))).take(5).collect();
+                ctx.violation_x("c17.concurrent-effects", "log-multiset", &json!("concurrent round"), &Value::Null, json!("every evaluated log prints exactly one whole line"), json!(diff), "lines printed during a concurrent round are not the union of the isolated traces (lost, duplicated or torn lines)", json!({"round": round, "threads": threads}));
+            }
+        }
+        // completion-order signature (which interleaving did we see?)
+        let mut o = order.lock().unwrap().clone();
+        o.sort();
+        let mut h: u64 = 0xcbf29ce484222325;
+        let mut switches = 0u64;
+        for w in 0..o.len() {
+            h = (h ^ o[w].1 as u64).wrapping_mul(0x100000001b3);
+            if w > 0 && o[w].1 != o[w - 1].1 {
+                switches += 1;
+            }
+        }
+        *signatures.entry(h).or_insert(0) += 1;
+        total_switches += switches;
+        ctx.mark_nontrivial_key(&format!("sched:{:x}", h));
+        ctx.cell(&format!("concurrent:threads={}", threads));
+    }
+    ctx.extra.insert("distinct_completion_orders".into(), json!(signatures.len()));
+    ctx.extra.insert("thread_switches_in_completion_order".into(), json!(total_switches));
+    ctx.extra.insert("concurrent_rounds".into(), json!(rounds));
+    ctx.extra.insert("pool_pairs".into(), json!(shared.len()));
+    ctx.sample(json!({"history_steps": n, "pool_pairs": shared.len(), "concurrent_rounds": rounds, "distinct_completion_orders": signatures.len()}));
+    ctx.sample(json!({"pair": [shared[4].0, shared[4].1], "isolated": iso[4].key, "isolated_log_lines": iso[4].logs}));
+    let _: Option<Obs> = None;
+}
+
+/// (allocation count, net live bytes) of one call whose result is dropped inside the measured region.
+fn measure_allocs(r: &Value, d: &Value) -> (u64, i64) {
+    if !alloc::enabled() {
+        return (0, 0);
+    }
+    let (a0, l0) = alloc::snapshot();
+    {
+        let res = jsonlogic_rs_apply_catching(r, d);
+        drop(res);
+    }
+    let (a1, l1) = alloc::snapshot();
+    (a1 - a0, l1 - l0)
+}
+
+fn jsonlogic_rs_apply_catching(r: &Value, d: &Value) -> Option<Result<Value, String>> {
+    // errors are mapped to () so that the comparison is about the library's allocations only
+    match std::panic::catch_unwind(std::panic::AssertUnwindSafe(|| jsonlogic_rs::apply(r, d))) {
+        Ok(Ok(v)) => Some(Ok(v)),
+        Ok(Err(_e)) => Some(Err(String::new())),
+        Err(_) => None,
+    }
+}
